@@ -123,7 +123,9 @@ class Reporter:
         self.assumptions = []
         self.violations = []  # list of (signature, detail)
         self._seen_sig = set()
-        self.known = [k for k in load_known() if k.get('property') == pid]
+        # VERIF_IGNORE_KNOWN=1 (maintenance only, never in registered commands): report known findings as violations, e.g.
+        # to regenerate their replay files under known_replays/
+        self.known = [] if os.environ.get('VERIF_IGNORE_KNOWN') else [k for k in load_known() if k.get('property') == pid]
         self.known_hits = []
         self.notes = []
 
